@@ -54,27 +54,28 @@ let oracle_of (vs : Sexp.t list) : nat -> (n * (n -> n)) =
   fun pos -> let k = int_of_nat pos in if k < Array.length tbl then tbl.(k) else (N0, (fun _ -> N0))
 
 (* one parsed operation: the model op, its kind, the implementation's result, extra flags *)
-type pop = { o : op; kind : string; impl : Sexp.t; det_differs : bool }
+type pop = { o : op; kind : string; impl : Sexp.t; det_differs : bool; det_crashed : bool }
 
 let last l = List.nth l (List.length l - 1)
 
 let parse_op (x : Sexp.t) : pop =
   match x with
   | Sexp.List (Sexp.Atom "init" :: Sexp.Atom "zero" :: rest) ->
-      { o = OInit KZero; kind = "init-zero"; impl = last rest; det_differs = false }
+      { o = OInit KZero; kind = "init-zero"; impl = last rest; det_differs = false; det_crashed = false }
   | Sexp.List (Sexp.Atom "init" :: Sexp.Atom "random" :: _seed :: rest) ->
       let orc = Sexp.field "oracle" rest in
-      let det = match Sexp.field_opt "det" rest with Some [Sexp.Atom "ok"] | None -> false | _ -> true in
-      { o = OInit (KRandom (oracle_of orc)); kind = "init-random"; impl = last rest; det_differs = det }
+      let det = match Sexp.field_opt "det" rest with Some [Sexp.Atom d] -> d | _ -> "ok" in
+      { o = OInit (KRandom (oracle_of orc)); kind = "init-random"; impl = last rest;
+        det_differs = (det = "differs"); det_crashed = (det <> "ok" && det <> "differs") }
   | Sexp.List [Sexp.Atom "set"; s; v; r] ->
       let bits = Sexp.atom v in
       let w = n_of_int (String.length bits - 1) in
-      { o = OSet (expr_of_sexp s, w, num v); kind = "set"; impl = r; det_differs = false }
-  | Sexp.List [Sexp.Atom "step"; r] -> { o = OStep; kind = "step"; impl = r; det_differs = false }
-  | Sexp.List [Sexp.Atom "get"; e; r] -> { o = OGet (expr_of_sexp e); kind = "get"; impl = r; det_differs = false }
-  | Sexp.List [Sexp.Atom "count"; r] -> { o = OCount; kind = "count"; impl = r; det_differs = false }
-  | Sexp.List [Sexp.Atom "snapshot"; r] -> { o = OSnapshot; kind = "snapshot"; impl = r; det_differs = false }
-  | Sexp.List [Sexp.Atom "restore"; i; r] -> { o = ORestore (num i); kind = "restore"; impl = r; det_differs = false }
+      { o = OSet (expr_of_sexp s, w, num v); kind = "set"; impl = r; det_differs = false; det_crashed = false }
+  | Sexp.List [Sexp.Atom "step"; r] -> { o = OStep; kind = "step"; impl = r; det_differs = false; det_crashed = false }
+  | Sexp.List [Sexp.Atom "get"; e; r] -> { o = OGet (expr_of_sexp e); kind = "get"; impl = r; det_differs = false; det_crashed = false }
+  | Sexp.List [Sexp.Atom "count"; r] -> { o = OCount; kind = "count"; impl = r; det_differs = false; det_crashed = false }
+  | Sexp.List [Sexp.Atom "snapshot"; r] -> { o = OSnapshot; kind = "snapshot"; impl = r; det_differs = false; det_crashed = false }
+  | Sexp.List [Sexp.Atom "restore"; i; _id; r] -> { o = ORestore (num i); kind = "restore"; impl = r; det_differs = false; det_crashed = false }
   | _ -> raise (Sexp.Parse_error ("bad op " ^ Sexp.to_string x))
 
 let root_tag (e : expr) : string =
@@ -90,6 +91,7 @@ let handle (x : Sexp.t) : string =
   let ms = ref sim0 and ss = ref sstate0 in
   let last_mut = ref "start" in
   let verdict = ref None in            (* (status, key, detail) of the first disagreement *)
+  let soft_verdict = ref None in
   let unmodelled = ref false in
   let n = ref 0 in
   let first = ref true in
@@ -116,11 +118,22 @@ let handle (x : Sexp.t) : string =
               if p.det_differs then begin
                 verdict := Some ("fail", "random-init-not-deterministic", where); raise Exit
               end;
+              if p.det_crashed then begin
+                verdict := Some ("fail", "panic-reading-back-after-random-init", where); raise Exit
+              end;
               if impl <> sp then begin
                 let key = if impl = "(panic)" then "panic@" ^ loc else Printf.sprintf "value:%s:after-%s" what !last_mut in
-                verdict := Some ("fail", key, Printf.sprintf "%s impl=%s spec=%s model=%s" where impl sp
-                                   (match model with Some m -> m | None -> "(unmodelled)"));
-                raise Exit
+                (* the property speaks of the values read (and of not crashing); the numbering of snapshot ids
+                   and the step counter are compared as correspondence only *)
+                let soft = impl <> "(panic)" && (p.kind = "count" || p.kind = "snapshot") in
+                let d = Printf.sprintf "%s impl=%s spec=%s model=%s" where impl sp
+                    (match model with Some m -> m | None -> "(unmodelled)") in
+                if soft then begin
+                  (* remembered, the history goes on: a wrong id numbering usually shows as a failing restore *)
+                  if !soft_verdict = None then soft_verdict := Some ("diff", key, d)
+                end else begin
+                  verdict := Some ("fail", key, d); raise Exit
+                end
               end;
               (match model with
                | Some m when m <> sp ->
@@ -142,7 +155,7 @@ let handle (x : Sexp.t) : string =
           | OInit _ | OSet _ | OStep | ORestore _ -> last_mut := p.kind
           | _ -> ())) ops
    with Exit -> ());
-  match !verdict with
+  match (match !verdict with Some v -> Some v | None -> !soft_verdict) with
   | Some (status, key, detail) -> Registry.result ~id ~status ~key ~detail ()
   | None ->
       if !unmodelled then Registry.result ~id ~status:"skip" ~key:"unmodelled-store-misuse" ()
